@@ -269,6 +269,23 @@ func genC03(g *Gen, tier string, emit func(op string, args ...string)) {
 			if err != nil || rw == nil {
 				continue
 			}
+			if g.Chance(1, 4) {
+				// of the REQUEST only the authenticator enters the formula: another code, identifier or Length in the
+				// request datagram, or attributes added to it, change nothing (the pair still verifies)
+				rw = append([]byte{}, rw...)
+				switch g.Intn(4) {
+				case 0:
+					rw[1] ^= byte(1 + g.Intn(255))
+				case 1:
+					rw[0] = byte(g.Intn(256))
+				case 2:
+					rw[2], rw[3] = byte(g.Intn(256)), byte(g.Intn(256))
+				default:
+					rw = append(rw[:20:20], g.RandBytes(g.Pick(0, 3, 40))...)
+				}
+				emit("authresp", hxIn(w), hxIn(rw), hxIn(sec))
+				continue
+			}
 			w, rw = g.damage(w), g.damage(rw)
 			if g.Chance(1, 5) {
 				sec = g.secret()
